@@ -97,6 +97,10 @@ package txwatcher
 // (the function takes the watcher's lock itself: no caller can hold it)
 //@ requires !holds(&l.Mutex)
 //@ ensures @C18 no-callback-before-return: !ghost.csvCalledBack
+// ... nor wait for the block loop: that loop runs the callbacks, which wait for
+// the swap mutex the registering action holds (a send on its channel from here
+// can block forever)
+//@ nosend @C18
 //@ ensures @C20,C07 registered: has(l.csvtxWatchList, swapId) && l.csvtxWatchList[swapId] != nil && l.csvtxWatchList[swapId].TxId == txId && l.csvtxWatchList[swapId].TxVout == vout && l.csvtxWatchList[swapId].Csv == csv
 
 // block scan for the confirmation height of a spent or not-yet-indexed output
